@@ -13,7 +13,7 @@ pub fn meta(tier: &str) -> CheckMeta {
     let q = tier == "quick";
     CheckMeta {
         id: "C08", level: "model_checking",
-        rule: "C08a (E-hist): BFS over histories of {copy(i), edit(i,e), reparse(i) keeping both, walk(i), delete(i)} on <=3 live handles descending from one parse (state = per-handle (text, internal tree hash, reference-count hash) via hooks H1/H2, every state rebuilt by replaying its history); before/after every operation on handle i the internal dump of every OTHER handle must be unchanged and i itself unchanged for non-mutating operations; all allocations freed once all handles are gone. C08b (E-sched): 2 (thorough also 3) real OS threads on distinct copies run 1-2 operations each on the real C runtime under a baton-passing scheduler; hook H1 yields before/after every reference-count atomic and before every plain ref_count read on nodes that existed before the threads started; depth-first enumeration of ALL schedules up to the preemption bound, each from a fresh parse; per schedule: thread results == sequential results, the base handle's internal dump unchanged, allocation balance zero, no foreign/double free. Non-trivial = schedule with >=1 preemption on a shared node (C08b) / operation on a handle that shares structure with another live handle (C08a).",
+        rule: "C08a (E-hist): BFS over histories of {copy(i), edit(i,e), reparse(i) keeping both, walk+query(i), delete(i)} on <=3 live handles descending from one parse (state = per-handle (text, internal tree hash, reference-count hash) via hooks H1/H2, every state rebuilt by replaying its history); before/after every operation on handle i the internal dump of every OTHER handle must be unchanged and i itself unchanged for non-mutating operations; all allocations freed once all handles are gone. C08b (E-sched): 2 (thorough also 3) real OS threads on distinct copies run 1-2 operations each on the real C runtime under a baton-passing scheduler; hook H1 yields before/after every reference-count atomic and before every plain ref_count read on nodes that existed before the threads started; depth-first enumeration of ALL schedules up to the preemption bound, each from a fresh parse; per schedule: thread results == sequential results, the base handle's internal dump unchanged, allocation balance zero, no foreign/double free. Non-trivial = schedule with >=1 preemption on a shared node (C08b) / operation on a handle that shares structure with another live handle (C08a).",
         assumptions: vec![
             "the scheduler explores sequentially consistent interleavings at the hooked points; a non-atomic read-modify-write cannot be split and is the business of the free-running TSan pass (thorough tier, separate flavour)".into(),
             "hardware reorderings weaker than sequential consistency are not modelled".into(),
@@ -48,7 +48,7 @@ fn apply_hop(parser: &mut Parser, hs: &mut Vec<Handle>, op: &HOp) {
             hs[i].text = nt;
         }
         HOp::Reparse(i) => { let t = parser.parse(&hs[i].text, Some(&hs[i].tree)).unwrap(); let h = Handle { text: hs[i].text.clone(), tree: t }; hs.push(h); }
-        HOp::Walk(i) => { let _ = XTree::build(&hs[i].tree); }
+        HOp::Walk(i) => { let _ = XTree::build(&hs[i].tree); let _ = query_hash(&hs[i].tree, &hs[i].text); }
         HOp::Delete(i) => { hs.remove(i); }
     }
 }
@@ -62,6 +62,17 @@ fn ops_at(hs: &[Handle]) -> Vec<HOp> {
         if hs.len() > 1 { v.push(HOp::Delete(i)); }
     }
     v
+}
+
+/// "queried": every named node through a real query cursor (a read-only use of the handle)
+fn query_hash(t: &Tree, text: &[u8]) -> u64 {
+    use streaming_iterator::StreamingIterator;
+    let Ok(q) = tree_sitter::Query::new(&t.language(), "(_) @n") else { return 0 };
+    let mut cur = tree_sitter::QueryCursor::new();
+    let mut h = 14695981039346656037u64;
+    let mut it = cur.matches(&q, t.root_node(), text);
+    while let Some(m) = it.next() { for c in m.captures { h = crate::util::fnv_mix(h, c.node.start_byte() as u64 * 31 + c.node.kind_id() as u64); } }
+    h
 }
 
 fn snapshot(h: &Handle) -> (u64, u64) { (xtree::internal_hash(&h.tree), visible_hash(&h.tree)) }
@@ -178,7 +189,7 @@ fn run_program(language: &tree_sitter::Language, mut text: Vec<u8>, tree: Tree, 
                 text = nt;
                 out.push(visible_hash(t));
             }
-            TOp::Walk => { out.push(visible_hash(t)); }
+            TOp::Walk => { out.push(visible_hash(t)); out.push(query_hash(t, &text)); }
             TOp::Drop => { handle = None; out.push(1); }
         }
     }
